@@ -311,6 +311,9 @@ def run_history(ptn, seed, quick, want_graphs=True):
 
             def f():
                 for arr in pool[vname][1]:
+                    if np.issubdtype(arr.dtype, np.integer):
+                        arr += 1
+                        continue
                     arr *= 0.5
                     arr += 0.25
             observe('numpy in-place update of an input array', 'inplace', vname, None, [], f)
@@ -378,6 +381,14 @@ def run_history(ptn, seed, quick, want_graphs=True):
             def mk():
                 chains = [ptn.OpChain([int(rng.integers(0, 3)) for _ in range(n)], [0] * (n + 1), float(rng.integers(1, 4)), int(rng.integers(0, L - n + 1)))
                           for n in [int(rng.integers(1, L + 1)) for _ in range(int(rng.integers(1, 4)))]]
+                if rng.random() < 0.5:
+                    # a sibling chain differing from an existing one on a single site (same coefficient): the compiler merges the
+                    # two into one edge carrying several operators
+                    c0 = chains[int(rng.integers(len(chains)))]
+                    k = int(rng.integers(len(c0.oids)))
+                    oids = list(c0.oids)
+                    oids[k] = (oids[k] + 1 + int(rng.integers(2))) % 3
+                    chains.append(ptn.OpChain(oids, [0] * (len(oids) + 1), c0.coeff, c0.istart))
                 return ptn.OpGraph.from_opchains(chains, L, 0)
             if graphs and rng.random() < 0.15:
                 # a second graph built with the public constructor from copies of the nodes / edges of an existing one and its
@@ -413,9 +424,18 @@ def run_history(ptn, seed, quick, want_graphs=True):
                 else:
                     opmap = {i: rng.normal(size=(len(qd), len(qd))) * np.equal.outer(np.array(qd), np.array(qd)) for i in range(3)}
                     opmap[0] = np.eye(len(qd))
+                    # entry types a user may hand over: float, complex (the dtype of the MPO tensors themselves), integer
+                    kind = int(rng.integers(3))
+                    if kind == 1:
+                        opmap = {i: (a * (1 + 0.5j)).astype(complex) for i, a in opmap.items()}
+                    elif kind == 2:
+                        opmap = {i: np.rint(2 * a).astype(int) for i, a in opmap.items()}
                     vm = observe('numpy operator map', 'fresh', None, True, [], lambda: add_obj('vec', list(opmap.values())))
                     observe('MPO.from_opgraph', 'fresh', None, True, [g1] + ([vm] if vm else []),
                             lambda: add_obj('mpo', ptn.MPO.from_opgraph(qd, pool[g1][1], opmap)))
             else:
-                observe('OpGraph.from_opchains', 'fresh', None, True, [], lambda: add_obj('graph', mk()))
+                gn = observe('OpGraph.from_opchains', 'fresh', None, True, [], lambda: add_obj('graph', mk()))
+                if gn and rng.random() < 0.6:
+                    # the documented in-place rewrite: parallel edges become one edge carrying several operators
+                    observe('OpGraph.simplify', 'inplace', gn, None, [], lambda: pool[gn][1].simplify() and None)
     return t02, t19
